@@ -471,8 +471,8 @@ func (l *lexer) scan() {
 				if isHTML && c == '<' && isEndStyle(l.src[p:]) {
 					// </style>
 					l.ctx = fileContext
-					p += 7
-					l.column += 7
+					p += 6
+					l.column += 6
 				} else if c == '"' || c == '\'' {
 					l.ctx = ast.ContextCSSString
 					quote = c
@@ -492,8 +492,8 @@ func (l *lexer) scan() {
 					if isHTML && isEndStyle(l.src[p:]) {
 						l.ctx = fileContext
 						quote = 0
-						p += 7
-						l.column += 7
+						p += 6
+						l.column += 6
 					}
 				}
 
@@ -502,8 +502,8 @@ func (l *lexer) scan() {
 					// </script>
 					l.ctx = fileContext
 					jsComment = jsCommentNone
-					p += 8
-					l.column += 8
+					p += 7
+					l.column += 7
 				} else if jsComment == jsCommentLine {
 					if c == '\n' || c == '\r' {
 						jsComment = jsCommentNone
@@ -544,8 +544,8 @@ func (l *lexer) scan() {
 					if isHTML && isEndScript(l.src[p:]) {
 						l.ctx = fileContext
 						quote = 0
-						p += 8
-						l.column += 8
+						p += 7
+						l.column += 7
 					}
 				}
 
@@ -553,8 +553,8 @@ func (l *lexer) scan() {
 				if isHTML && c == '<' && isEndScript(l.src[p:]) {
 					// </script>
 					l.ctx = fileContext
-					p += 8
-					l.column += 8
+					p += 7
+					l.column += 7
 				} else if c == '"' {
 					l.ctx = ast.ContextJSONString
 					quote = '"'
@@ -574,8 +574,8 @@ func (l *lexer) scan() {
 					if isHTML && isEndScript(l.src[p:]) {
 						l.ctx = fileContext
 						quote = 0
-						p += 8
-						l.column += 8
+						p += 7
+						l.column += 7
 					}
 				}
 
